@@ -21,6 +21,16 @@ def bases(rnd, n):
         ("eof", [("data", 10, scen.HANDSHAKE + E(2, b"zz")), ("eof", 5)], {}),
         ("write-fault", [("data", 10, scen.HANDSHAKE + E(9, b"pp") + E(1, b"t")), ("timeout", 5120), ("timeout", 5120)], dict(_wf=["ok", "oserr"])),
         ("autoping-fault", [("data", 10, scen.HANDSHAKE)] + [("timeout", 5120)] * 3, dict(ping_rate=4 * 1024, _wf=["ok", "oserr"])),
+        # the websocket is no longer "active" (a closing handshake is under way) when the consumer leaves
+        ("client-closing-then-polls", [("data", 10, scen.HANDSHAKE)] + [("timeout", 5120)] * 3, dict(_app={2: [("close", 1000, b"bye")]})),
+        ("client-closing-then-message", [("data", 10, scen.HANDSHAKE), ("timeout", 5120), ("data", 10, E(1, b"still talking")), ("timeout", 5120)],
+         dict(_app={2: [("close", 1000, b"bye")]})),
+        ("client-closing-unresponsive", [("data", 10, scen.HANDSHAKE)] + [("timeout", 5120)] * 6, dict(ping_timeout=10 * 1024, close_timeout=None, _app={2: [("close", 1000, b"")]})),
+        ("client-closing-protocol-error", [("data", 10, scen.HANDSHAKE), ("timeout", 5120), ("data", 10, E(3, b""))], dict(_app={2: [("close", 1001, b"")]})),
+        ("server-close-echoed-then-polls", [("data", 10, scen.HANDSHAKE + E(8, ref6455.close_payload(1000, b"")))] + [("timeout", 5120)] * 3, {}),
+        ("closed-at-connected", [("data", 10, scen.HANDSHAKE)] + [("timeout", 5120)] * 2, dict(_app={1: [("close", 1000, b"")]})),
+        # the upgrade request cannot be written
+        ("request-write-fails", [("data", 10, scen.HANDSHAKE)], dict(_wf=["oserr"])),
     ]
     for name, steps, extra in fixed:
         out.append((name, steps, extra))
@@ -57,12 +67,16 @@ def run(rep, info, model, tier, seed):
         cfgkw = {k: v for k, v in extra.items() if not k.startswith("_")}
         cfg = simnet.default_cfg(**cfgkw)
         # how many events does the un-abandoned run yield?
-        probe = dict(cfg=cfg, steps=steps, keys=[b"\x01\x02\x03\x04"] * 12, key16=scen.KEY16, wfaults=list(extra.get("_wf", [])))
+        base_app = extra.get("_app", {})
+        probe = dict(cfg=cfg, steps=steps, keys=[b"\x01\x02\x03\x04"] * 12, key16=scen.KEY16, wfaults=list(extra.get("_wf", [])),
+                     app={k: list(v) for k, v in base_app.items()})
         r = simnet.run_impl(probe)
         nev = len([it for it in r.trace if it[0] == 0])
         for at in range(nev):
             for mech in MECHS:
-                sc = dict(cfg=cfg, steps=steps, keys=[b"\x01\x02\x03\x04"] * 12, key16=scen.KEY16, app={at: [("abandon", mech)]},
+                app = {k: list(v) for k, v in base_app.items()}
+                app.setdefault(at, []).append(("abandon", mech))
+                sc = dict(cfg=cfg, steps=steps, keys=[b"\x01\x02\x03\x04"] * 12, key16=scen.KEY16, app=app,
                           wfaults=list(extra.get("_wf", [])))
                 sc["_mech"] = mech
                 sc["_at"] = at
@@ -74,7 +88,7 @@ def run(rep, info, model, tier, seed):
         rep.count("mechanism", sc["_mech"])
         rep.count("abandoned_at_event_code", sc["_evname"])
     fam.run_family(rep, model, "C13:abandon-at-every-event", scs, oracle, project=lambda t: t,
-                   rule="for each base scenario (handshake, messages, housekeeping Polls in silence, Unresponsive, server close, rejection, protocol error, EOF, failed library writes): abandonment at EVERY event index by break / exception in the handler / generator.close() / exception leaving `with ws:`; afterwards gc.collect(); the simulated socket and selector must have been closed")
+                   rule="for each base scenario (handshake, messages, housekeeping Polls in silence, Unresponsive, server close, rejection, protocol error, EOF, failed library writes, a failed request write, and the same while a closing handshake started by either side is under way): abandonment at EVERY event index by break / exception in the handler / generator.close() / exception leaving `with ws:`; afterwards gc.collect(); the simulated socket and selector must have been closed")
     rep.exhaustive["every event index x 4 mechanisms for each base scenario"] = True
     if not proof_ok and not rep.violations:
         rep.broken("proof obligation props/C13.v no longer checks: %s" % (rep.coq_failure,))
